@@ -22,10 +22,17 @@ LEVEL_NOTE = ("Lean kernel + standard axioms; model hand-written, tied by corres
 RULE = ("seeded histories (<=20 events quick, plus drain) of download chunks of random sizes / overwrite / set_current_size / read / "
         "download_done / eventual-queue turn / close against a real OverwriteableFileConsumer over tempfile.TemporaryFile (every 4th "
         "history again over EncryptedTemporaryFile, monitor only); a case is one event; distinct = distinct (internal state before, "
-        "event) pairs; non-trivial = the overwrites heap is non-empty or a read is pending when the event is applied")
+        "event) pairs; non-trivial = the overwrites heap is non-empty or a read is pending when the event is applied; plus real "
+        "GeneralSFTPFile handles on the in-process grid (existing immutable and mutable files opened read/write without TRUNC/CREAT): "
+        "a fixed corpus of pipelined open/write/close histories with 0/1/3/all scheduler steps between requests and a random family "
+        "drawing the number of scheduler steps between requests — stored contents after a successful close must equal the reference; "
+        "has_changed per event, close outcome and committed contents are compared with the handle model (driver command c39h)")
 TRUSTED = ["lean/Tahoe/Sftp/Consumer.lean is a hand transcription of OverwriteableFileConsumer (heapq heaps as sorted lists, "
            "eventually() as a FIFO queue flushed by an explicit event, the while loop of write() with fuel = heap length)",
-           "the temporary file is modelled as a POSIX regular file (write/truncate past the end zero-fill)"]
+           "the temporary file is modelled as a POSIX regular file (write/truncate past the end zero-fill)",
+           "lean/Tahoe/Sftp/Handle.lean is a hand transcription of GeneralSFTPFile's async_ queue, has_changed and close/_commit "
+           "(the upload is one atomic read of the temporary file); harness/grid.py (in-process grid) and the observation wrappers "
+           "around OverwriteableFileConsumer.__init__/write/download_done/get_file in harness/props/c39.py"]
 ASSUMPTIONS = ["the caller performs no overwrite / set_current_size while a read's Deferred is unfired (read() docstring)",
                "the producer delivers the original contents in order, and download_done(bytes) is only called by the download after "
                "it delivered everything (GeneralSFTPFile.open wiring)",
@@ -358,6 +365,222 @@ def report(ctx, orig_hex, evs, run, enc):
         _turn()
 
 
+# ----------------------------------------------------------------------------- the SFTP handle (GeneralSFTPFile) on a real grid
+
+def pattern(n, salt):
+    return bytes((i * 7 + salt) % 251 for i in range(n))
+
+
+# Fixed corpus of pipelined handle histories (independent of VERIF_SEED).  A history is a token list:
+#   W:off:hex (writeChunk)  S:n (setAttrs size)  R:off:len (readChunk, awaited)  G:n (n scheduler steps; G:q = until quiescent)
+# the handle is opened on an EXISTING file for read/write without FXF_TRUNC/FXF_CREAT before the first token and closed
+# (close awaited) after the last.  seeded C39-e: has_changed set only when the queued write runs -> a close that arrives
+# before get_best_readable_version() fired skips the commit.
+HANDLE_CORPUS = []
+for _mut in (False, True):
+    for _g in ("0", "1", "3", "q"):
+        HANDLE_CORPUS.append({"mutable": _mut, "size": 300, "toks": ["W:100:" + (b"CLIENT".hex() * 5), "G:" + _g]})
+    HANDLE_CORPUS.append({"mutable": _mut, "size": 300, "toks": ["G:0", "W:10:aaab", "G:0", "W:290:" + "cd" * 30, "G:0", "S:250", "G:0"]})
+    HANDLE_CORPUS.append({"mutable": _mut, "size": 300, "toks": ["G:3", "W:0:" + "ee" * 70, "G:1", "R:60:20", "W:65:f0f1", "G:2"]})
+    # only size changes, no writeChunk (setAttrs does not set has_changed: known finding / fixes/C39-setattrs-has-changed.diff)
+    HANDLE_CORPUS.append({"mutable": _mut, "size": 300, "toks": ["S:100", "G:q"]})
+    HANDLE_CORPUS.append({"mutable": _mut, "size": 300, "toks": ["G:q", "S:400", "G:1"]})
+    HANDLE_CORPUS.append({"mutable": _mut, "size": 200, "toks": ["W:150:" + "99" * 20, "G:q", "S:120", "G:0", "S:260", "W:5:0102", "G:1"]})
+
+
+def gen_handle(rng):
+    size = rng.choice([0, 1, 70, 200, 300, 520])
+    eager = rng.random() < 0.5
+    gaps = ["0", "0", "0", "1", "2"] if eager else ["0", "0", "1", "2", "3", "5", "8", "20", "60", "q"]
+    toks = ["G:" + rng.choice(gaps)]
+    cur = size
+    n = rng.randrange(1, 13)
+    wrote = False
+    for i in range(n):
+        r = rng.random()
+        if r < 0.6 or (i == n - 1 and not wrote and rng.random() < 0.8):
+            off = rng.randrange(0, cur + 30)
+            data = bytes(rng.randrange(0x80, 0x100) for _ in range(rng.choice([1, 2, 5, 40, 130])))
+            toks.append("W:%d:%s" % (off, data.hex()))
+            cur = max(cur, off + len(data))
+            wrote = True
+        elif r < 0.8:
+            cur = rng.randrange(0, cur + 100)
+            toks.append("S:%d" % cur)
+        elif cur > 0:
+            toks.append("R:%d:%d" % (rng.randrange(0, cur), rng.choice([1, 10, 100, 600])))
+        toks.append("G:" + rng.choice(gaps))
+    return {"mutable": rng.random() < 0.5, "size": size, "toks": toks}
+
+
+def run_handles(ctx, plans, label, hcases, himpl, hlines):
+    """Drive real GeneralSFTPFile handles (real OverwriteableFileConsumer / EncryptedTemporaryFile) on the in-process grid.
+    Monitor: every awaited read equals the reference; if close reports success the contents stored in the grid equal the
+    reference (old contents with the client's writes and size changes applied in order)."""
+    import grid
+    from twisted.conch.ssh.filetransfer import FXF_READ, FXF_WRITE
+    from twisted.python.failure import Failure
+    from allmydata.immutable import upload
+    from allmydata.mutable.publish import MutableData
+    from allmydata.util.consumer import MemoryConsumer
+    from allmydata.frontends import sftpd
+    base = grid.fresh_dir("c39h")
+    # observation hooks on the consumer class (behaviour unchanged): the order of the download-side calls relative to the
+    # client's requests is what the handle model (lean/Tahoe/Sftp/Handle.lean, driver command c39h) is run on
+    OFC = sftpd.OverwriteableFileConsumer
+    saved = {k: OFC.__dict__[k] for k in ("__init__", "write", "download_done", "get_file")}
+    trace = {"toks": None, "flags": None, "f": None}
+
+    def note(tok):
+        if trace["toks"] is not None:
+            trace["toks"].append(tok)
+            trace["flags"].append("1" if trace["f"] is not None and trace["f"].has_changed else "0")
+
+    def w_init(self, *a, **k):
+        saved["__init__"](self, *a, **k)
+        note("st")
+
+    def w_write(self, data):
+        saved["write"](self, data)
+        note("k:%d" % len(data))
+
+    def w_done(self, res):
+        saved["download_done"](self, res)
+        if res == b"download finished":
+            note("d:1")
+        elif isinstance(res, Failure):
+            note("d:0")
+
+    def w_get_file(self):
+        note("t")
+        return saved["get_file"](self)
+    OFC.__init__, OFC.write, OFC.download_done, OFC.get_file = w_init, w_write, w_done, w_get_file
+    try:
+        with grid.Runtime(seed=0 if label == "corpus" else ctx.seed, policy="fifo") as rt:
+            g = grid.Grid(base, rt, num_servers=4, num_clients=1, k=2, happy=1, n=3, max_segment_size=64)
+            c = g.clients[0]
+            dn = rt.wait(c.create_dirnode())
+            for idx, plan in enumerate(plans):
+                original = pattern(plan["size"], idx)
+                name = "%s%d" % (label, idx)
+                if plan["mutable"]:
+                    node = rt.wait(c.create_mutable_file(MutableData(original)))
+                    rt.wait(dn.set_node(name, node))
+                else:
+                    rt.wait(dn.add_file(name, upload.Data(original, convergence=b"c" * 16)))
+                child, metadata = rt.wait(dn.get_child_and_metadata(name))
+                ref = bytearray(original)
+                case = {"family": "handle", "mutable": plan["mutable"], "size": plan["size"], "toks": plan["toks"], "salt": idx}
+                problems = []
+                f = sftpd.GeneralSFTPFile(b"/" + name.encode(), FXF_READ | FXF_WRITE, None, b"c" * 16)
+                trace["toks"], trace["flags"], trace["f"] = [], [], f
+                f.open(parent=dn, childname=name, filenode=child, metadata=metadata)
+                nwrites = 0
+                for tok in plan["toks"]:
+                    p = tok.split(":")
+                    ctx.count("handle-ev:" + p[0])
+                    if p[0] == "G":
+                        if p[1] == "q":
+                            rt.settle()
+                        else:
+                            for _ in range(int(p[1])):
+                                if not rt.step():
+                                    break
+                    elif p[0] == "W":
+                        off, data = int(p[1]), bytes.fromhex(p[2])
+                        if f.consumer is None:
+                            ctx.count("handle:write-requested-before-the-download-started")
+                        f.writeChunk(off, data)
+                        note("W:%d:%s" % (off, p[2]))
+                        nwrites += 1
+                        if off > len(ref):
+                            ref.extend(b"\x00" * (off - len(ref)))
+                        ref[off:off + len(data)] = data
+                    elif p[0] == "S":
+                        n = int(p[1])
+                        f.setAttrs({"size": n})
+                        note("S:%d" % n)
+                        if n <= len(ref):
+                            del ref[n:]
+                        else:
+                            ref.extend(b"\x00" * (n - len(ref)))
+                    elif p[0] == "R":
+                        off, ln = int(p[1]), int(p[2])
+                        try:
+                            got = rt.wait(f.readChunk(off, ln))     # awaited before the next request (the consumer's contract)
+                        except Exception as e:
+                            got = e
+                        want = bytes(ref[off:off + ln])
+                        if off >= len(ref):
+                            if not isinstance(got, Exception):
+                                problems.append(("read-past-eof-returned-data", "read(%d,%d) -> %r" % (off, ln, got)))
+                        elif got != want:
+                            problems.append(("handle-read-differs-from-reference", "read(%d,%d) -> %r, reference %r" % (off, ln, got, want)))
+                closed_before_start = f.consumer is None
+                if closed_before_start:
+                    ctx.count("handle:close-requested-before-the-download-started")
+                try:
+                    dclose = f.close()
+                    note("C")
+                    rt.wait(dclose)
+                    close_ok = True
+                except Exception as e:
+                    close_ok = False
+                    ctx.count("handle:close-reported-failure")
+                rt.settle()
+                newchild = rt.wait(dn.get(name))
+                if plan["mutable"]:
+                    final = rt.wait(newchild.download_best_version())
+                else:
+                    mc = MemoryConsumer()
+                    rt.wait(newchild.read(mc, 0, None))
+                    final = b"".join(mc.chunks)
+                ctx.case((plan["mutable"], plan["size"], tuple(plan["toks"])))
+                # correspondence with the handle model: has_changed after every event, the close outcome, what was committed
+                htoks, hflags = trace["toks"], trace["flags"]
+                trace["toks"] = None
+                committed = "t" in htoks
+                hcases.append(case)
+                himpl.append("%s %s %s" % ("".join(hflags) or "-", "ok" if close_ok else "failed",
+                                           (final.hex() or "-") if committed else "none"))
+                hlines.append("c39h code %s %s" % (original.hex() or "-", " ".join(htoks)))
+                if close_ok and final != bytes(ref):
+                    if nwrites == 0:
+                        # no writeChunk at all, only setAttrs(size): setAttrs never sets has_changed, so close skips the commit
+                        problems.append(("size-change-only-handle-not-stored",
+                                         "close reported success but the size change(s) were not stored (stored %d bytes, reference %d bytes)" % (
+                                             len(final), len(ref))))
+                    elif final == original:
+                        problems.append(("close-succeeds-but-client-writes-not-stored",
+                                         "close reported success but the grid still holds the ORIGINAL contents (%d writes lost%s)" % (
+                                             nwrites, ", close requested before the download started" if closed_before_start else "")))
+                    else:
+                        problems.append(("stored-contents-differ-from-reference",
+                                         "stored %r..., reference %r..." % (final[:60], bytes(ref)[:60])))
+                for (sig, text) in problems[:1]:
+                    ctx.violation("GeneralSFTPFile (%s file): %s" % ("mutable" if plan["mutable"] else "immutable", text), case, sig,
+                                  detail=[t for _, t in problems[:5]])
+            g.close()
+    finally:
+        for k, v in saved.items():
+            setattr(OFC, k, v)
+        import shutil
+        shutil.rmtree(base, ignore_errors=True)
+
+
+def run_handles_salted(ctx, c):
+    global pattern
+    salt = c.get("salt", 0)
+    old = pattern
+    try:
+        pattern = lambda n, _s, _old=old: _old(n, salt)      # noqa: E731
+        hc, hi, hl = [], [], []
+        run_handles(ctx, [{"mutable": c["mutable"], "size": c["size"], "toks": c["toks"]}], "replay", hc, hi, hl)
+        ctx.compare("GeneralSFTPFile handle (has_changed per event, close outcome, committed contents)", hc, hi, ctx.model(hl))
+    finally:
+        pattern = old
+
+
 def run(ctx):
     from common import hx, unhx
     cases, impl = [], []
@@ -366,6 +589,10 @@ def run(ctx):
         cases.append({"orig": orig_hex, "evs": evs, "enc": False})
         impl.append(";".join(outs))
 
+    if ctx.replay and ctx.replay["case"].get("family") == "handle":
+        c = ctx.replay["case"]
+        run_handles_salted(ctx, c)
+        return
     if ctx.replay:
         c = ctx.replay["case"]
         evs, outs, r = execute(ctx, unhx(c["orig"]), c["evs"], enc=bool(c.get("enc")))
@@ -395,6 +622,12 @@ def run(ctx):
                 evs_e, _, r2 = execute(ctx, orig, evs, enc=True, count=False)
                 report(ctx, hx(orig), evs, r2, True)
                 ctx.count("encrypted-tempfile-histories")
+    if not ctx.replay:
+        hc, hi, hl = [], [], []
+        run_handles(ctx, HANDLE_CORPUS, "corpus", hc, hi, hl)
+        if not os.environ.get("VERIF_CORPUS_ONLY"):
+            run_handles(ctx, [gen_handle(ctx.rng) for _ in range(ctx.budget(40, 1500))], "rnd", hc, hi, hl)
+        ctx.compare("GeneralSFTPFile handle (has_changed per event, close outcome, committed contents)", hc, hi, ctx.model(hl))
     model = ctx.model(["c39 %s %s" % (c["orig"], " ".join(c["evs"])) for c in cases])
     ctx.compare("OverwriteableFileConsumer history (file bytes, downloaded/download_size/current_size, heaps, done, read results per event)",
                 cases, impl, model)
